@@ -5,7 +5,8 @@ random instants; numeric offsets enumerated; fractional seconds; zone designator
 variant; accessors and epoch views; a malformed / out-of-domain stream printed as class W
 (conformance of the transcription only).  The direct oracle uses Python's datetime (an independent
 proleptic Gregorian calendar) and never the Lean model."""
-import os, re, struct
+import math, os, re, struct
+from fractions import Fraction
 from datetime import datetime, timedelta
 from lib.core import Case, GenError, write_if_changed, LEAN
 from lib import cbuild
@@ -28,7 +29,9 @@ ASSUMPTIONS = ["libc contract taken over by the model, including the one-line gl
                "offset) are legitimate values, not errors; checked by the P streams (edge-offset stream: texts whose fields lie before 1970 "
                "or beyond the instant's own year) and the oracle, not proved about libc",
                "main run with TZ=UTC in the environment (mktime path of zone-less RFC 822 text then equals timegm); further runs with TZ=XXX-5:30 and TZ=AAA8 cover the zone-independent streams (all UTC formatters, zone-carrying texts, accessors, epoch views); local-time functions are outside the property",
-               "aws_date_time_init_epoch_secs is driven with doubles secs + ms/1000 (ms < 1000, |secs| < 2^53/1000); the double arithmetic itself is compared bit-for-bit in the harness, not proved",
+               "aws_date_time_init_epoch_secs: the double -> (timestamp, milliseconds) split is modelled over the rationals (Model splitDouble: modf exact, "
+               "product with 1000.0 rounded to nearest-even at 53 bits, C round exact, uint16_t cast) assuming IEEE-754 binary64 in round-to-nearest without excess "
+               "precision (x86-64/SSE2); tied by the accd stream against the C code and against Python floats; as_epoch_secs' double arithmetic is compared bit-for-bit, not proved",
                "as_nanos is required to be 10^9*secs + 10^6*ms exactly, or the saturated value 2^64-1 where that does not fit (instants after 2554-07-21T23:34:33.709Z) - never a wrapped value; as_millis exact over the whole range (theorem c19_epoch_views, oracle on every acc / millis / successful parse)",
                "int arithmetic of the RFC 822 day field wraps (gcc/x86-64)"]
 RULE = ("per instant t: rt (format then parse the produced text) for 3 formats x full/date-only x explicit/auto-detect, acc; "
@@ -40,6 +43,9 @@ RULE = ("per instant t: rt (format then parse the produced text) for 3 formats x
         "append stream: fmtb = one to three timestamps formatted back to back into ONE output buffer that already holds a random prefix of 0..40 bytes, "
         "capacity exact / one short / just above / far too small; P: prefix preserved, len = prefix + text, refusal leaves the buffer unchanged, every appended range parses back; "
         "misc stream: local-time formatters (all six cases, in the UTC run and under both other zones), aws_date_time_diff, aws_date_time_init_now against the wall clock, dst accessor on every result; "
+        "double-fractions stream: init_epoch_secs on doubles with fractions at the millisecond rounding boundaries (.9994/.9995/.99951/.9999/.99999/just below the "
+        "next second, .4995/.5, .0005) and their neighbours in the double grid, at bases across the range; oracle: timestamp/ms as IEEE arithmetic gives them "
+        "(ms = 1000 for fractions in [0.9995,1)), views consistent, as_millis within 1 ms of the exact instant; "
         "mixed-separators stream: ISO texts with extended date + basic time and basic date + extended time; "
         "fractions, zone-designator case variants; W stream: mutated / out-of-range / over-long texts, 2-digit years, short buffers; "
         "non-trivial = case contains at least one successful parse of a non-midnight instant or a non-zero offset")
@@ -345,6 +351,30 @@ def oracle(case, lines):
                         li += 1
                     else:
                         skip_parse_lines()
+        elif t[0] == "accd":
+            l, v = nxt(), nxt()
+            if l is None or v is None:
+                errs.append(f"{op}: missing output"); break
+            if w or l == "bad-op":
+                continue
+            d = struct.unpack(">d", bytes.fromhex(t[1]))[0]
+            frac, integral = math.modf(d)          # IEEE doubles, as the C code: modf exact, product rounded, round() exact
+            p = frac * 1000.0
+            r = math.floor(p)
+            ms = int(r) + (1 if p - r >= 0.5 else 0)
+            secs = int(integral)
+            if not (0 <= secs <= MAXT):
+                continue
+            what = f"{op} (double {d!r})"
+            n0 = len(errs)
+            check_fields(l, secs, ms, errs, what)
+            if len(errs) == n0:
+                check_views(v, secs, ms, errs, what)
+            mv = _VIEWS.search(v)
+            if mv:
+                exact_ms = Fraction(d) * 1000
+                if abs(int(mv.group(1)) - exact_ms) > 1:
+                    errs.append(f"{what}: as_millis {mv.group(1)} is more than 1 ms away from the instant ({float(exact_ms):.4f} ms)")
         elif t[0] in ("acc", "millis"):
             l, v = nxt(), nxt()
             if l is None or v is None:
@@ -556,6 +586,34 @@ def append_ops(rng, tier, n):
     ops.append(f"fmtb 30 {hx(b'not-after=')} 0 iso8601 full")
     ops.append(f"fmtb 31 {hx(b'not-after=')} 0 iso8601 full")
     ops.append(f"w fmtb 80 {hx(b'pre:')} -1 iso8601 full {MAXT + 1} iso8601 full 0 rfc822 short")
+    return ops
+
+
+def dbits(d):
+    return "%016x" % struct.unpack(">Q", struct.pack(">d", d))[0]
+
+
+def double_ops(rng, tier):
+    """aws_date_time_init_epoch_secs on doubles whose fraction sits at the rounding boundaries of the millisecond
+    split (x.9994 / .9995 / .99951 / .9999 / .99999 / just below the next second; .4994 / .4995 / .5; .0004 / .0005),
+    at base instants across the range (epoch, 2^31, 2^32, the nanosecond limit, 9999-12-31), plus neighbours in
+    the double grid and random doubles; a fraction in [0.9995, 1) is stored as ms = 1000 with the same timestamp"""
+    k = 40 if tier == "quick" else 2000
+    bases = [0, 1, 59, 951782399, 1033545909, 2**31 - 1, 2**31, 2**32 - 1, 2**32, 2**33, 10**10, NS_LIMIT, NS_LIMIT + 1, 20000000000,
+             MAXT - 86400, MAXT - 1, MAXT] + [rng.randint(0, MAXT) for _ in range(k)]
+    fracs = [0.0, 0.0004, 0.0005, 0.00051, 0.001, 0.0015, 0.4994, 0.4995, 0.49951, 0.5, 0.5005, 0.998, 0.999, 0.9989999, 0.9994, 0.99949,
+             0.9995, 0.99951, 0.9996, 0.9999, 0.99999, 0.999999999]
+    ds = []
+    for b in bases:
+        for f in fracs:
+            d = float(b) + f
+            ds.append(d)
+            if rng.random() < 0.3:
+                ds += [math.nextafter(d, 0.0), math.nextafter(d, math.inf)]
+        ds += [math.nextafter(float(b + 1), 0.0), float(b + 1), math.nextafter(float(b), math.inf), b + rng.random()]
+    ds += [rng.uniform(0, MAXT) for _ in range(k * 5)] + [rng.random() for _ in range(k)] + [5e-324, 2.2250738585072014e-308, 1e-9]
+    ops = [f"accd {dbits(d)}" for d in ds if 0 <= d < MAXT + 1]
+    ops += [f"w accd {dbits(x)}" for x in (float(MAXT) + 1.9996, 1e12 + 0.9996, 1e15, 9007199254740992.0, 1e16)]   # beyond ~6.7e16 s gmtime_r fails (year > INT_MAX): not modelled
     return ops
 
 
@@ -777,6 +835,7 @@ def gen_cases(rng, tier):
     cases += chunk(nanos_ops(rng, tier), 50, {"stream": "nanos-limit"})
     cases += chunk(append_ops(rng, tier, 3000 if tier == "quick" else 60000), 40, {"stream": "append"})
     cases += chunk(misc_ops(rng, 300 if tier == "quick" else 5000), 50, {"stream": "misc"})
+    cases += chunk(double_ops(rng, tier), 50, {"stream": "double-fractions"})
     cases += chunk(mixed_sep_ops(rng, 400 if tier == "quick" else 8000), 50, {"stream": "mixed-separators"})
     cases += chunk(designator_ops(rng, 20 if tier == "quick" else 200), 50, {"stream": "designator"})
     cases += chunk(fraction_ops(rng, 3000 if tier == "quick" else 30000), 50, {"stream": "fraction"})
@@ -869,11 +928,11 @@ def replay(ctx, obj):
 
 
 def nontrivial(case):
-    return any(o.startswith(("rt", "parse", "acc", "fmtb")) for o in case.ops)
+    return any(o.startswith(("rt", "parse", "acc", "fmtb")) for o in case.ops)   # "acc" also covers accd
 
 
 def distribution(cases, c_out):
-    d = {"rt": 0, "parse": 0, "fmt": 0, "fmtb": 0, "lfmt": 0, "diff": 0, "now": 0, "acc": 0, "millis": 0, "w_ops": 0, "parse_ok": 0, "parse_refused": 0,
+    d = {"rt": 0, "parse": 0, "fmt": 0, "fmtb": 0, "accd": 0, "lfmt": 0, "diff": 0, "now": 0, "acc": 0, "millis": 0, "w_ops": 0, "parse_ok": 0, "parse_refused": 0,
          "streams": {}}
     for i, c in enumerate(cases):
         s = c.tags.get("stream", "probe")
